@@ -39,10 +39,11 @@ prop("C10", [
 prop("C19", [
     S(REASM, "^TestC19Regress$", kind="plain"),
     S(REASM, "^TestC19$", q=4000, t=40000, shards=16),
+    S(REASM, "^TestC19Large$", kind="plain", timeout_t=3000),
 ], REASM_ASSUME + ["time is real: expiry is decided three-valued from harness clock brackets; only definite answers are asserted",
                    "what a push made after Close does itself is not asserted (only that later Maintain/Close fail and deliver nothing)"],
    nontrivial_classes=["history-with-timeout-only-delivery", "history-with-call-after-close", "history-with-push-after-close",
-                       "decision-definitely-expired", "decision-definitely-live"])
+                       "decision-definitely-expired", "decision-definitely-live", "large-stale-buffer-history"])
 
 PARSE = "props/parse"
 
@@ -126,7 +127,9 @@ prop("C08", [
     S(CLIENT, "^TestC08Regress$", kind="plain"),
     S(CLIENT, "^TestC08Errnos$", kind="plain"),
     S(CLIENT, "^TestC08$", q=3000, t=20000, shards=16),
-], ["the simulated kernel never hands out request sequence 0 (the kernel uses 0 for unsolicited events)",
+    S(CLIENT, "^TestC08RealTransport$", kind="plain", q=120, t=5000),
+], ["the simulated kernel never hands out request sequence 0 (the kernel uses 0 for unsolicited events); what the library's own transport hands out is covered by the real-transport stage",
+    "real-transport stage: rtnetlink in a private network namespace plays the kernel (every audit message type is refused with EOPNOTSUPP; unsolicited sequence-0 messages are address notifications caused by a raw socket); skipped without the privilege",
     "'identifies the errno' = errors.Is(err, errno), plus AddRule's documented 'rule exists' text for EEXIST",
     "at most 9 transient receive failures in a row (the property's bound); EAGAIN is rationed because the client sleeps 50 ms on it"],
    nontrivial_classes=["op-with-errno", "op-with-foreign-reply", "op-with-interleaved-events", "op-with-transient-failures", "op-with-fault-send", "op-with-fault-recv", "op-with-fault-shortack", "op-with-fault-acktype"] +
